@@ -88,8 +88,12 @@ def export(proto, opts):
     return src
 
 
+def all_initializers(model):
+    return big_initializers(model, threshold=-1)
+
+
 def big_initializers(model, threshold=4):
-    """Initializers (anywhere in the graph) that the skip_initializers option documents as left out."""
+    """Initializers (anywhere in the graph) with more than `threshold` elements, in traversal order."""
     out = []
 
     def walk(g):
@@ -121,16 +125,19 @@ def back_to_model(proto, src, opts):
             # generated protocol: make_model(<one parameter per skipped initializer>) -> ModelProto
             mk = mod.make_model
             params = list(inspect.signature(mk).parameters)
-            inits = {}
-            for init in big_initializers(proto):
-                inits.setdefault(spec_clean(init.name), []).append(init)
-            args = []
-            byorder = [i for i in big_initializers(proto)]
-            if len(params) != len(byorder):
-                raise Stage("fetch", LookupError(
-                    f"make_model takes {len(params)} parameters {params}, model has {len(byorder)} skipped initializers"))
-            for p, init in zip(params, byorder):
-                args.append(onnx.numpy_helper.to_array(init))
+            all_inits = all_initializers(proto)
+            byname = {}
+            for init in all_inits:
+                byname.setdefault(spec_clean(init.name), []).append(init)
+            if all(p in byname and len(byname[p]) == 1 for p in params):
+                chosen = [byname[p][0] for p in params]          # by (cleaned) name
+            else:
+                chosen = big_initializers(proto)                  # rename=True: positional, traversal order
+                if len(params) != len(chosen):
+                    raise Stage("fetch", LookupError(
+                        f"make_model takes parameters {params}; cannot match them to the model's initializers "
+                        f"{[i.name for i in all_inits]}"))
+            args = [onnx.numpy_helper.to_array(init) for init in chosen]
             try:
                 with warnings.catch_warnings():
                     warnings.simplefilter("ignore")
@@ -199,8 +206,7 @@ def model_interface_diff(orig: onnx.ModelProto, back: onnx.ModelProto, rename: b
     """-> list of problem strings.  Names of inputs are compared after the documented clean-up unless the
     rename option (documented as 'rename the names to get shorter names') is on."""
     probs = []
-    init_names = {i.name for i in orig.graph.initializer}
-    oi = [i for i in orig.graph.input if i.name not in init_names]
+    oi = list(orig.graph.input)
     bi = list(back.graph.input)
     oo, bo = list(orig.graph.output), list(back.graph.output)
     if len(oi) != len(bi):
